@@ -125,6 +125,27 @@ theorem sorted_rangeKeys (m : List (Str × Str)) (o₁ o₂ : List Nat) :
     sortStrings (rangeKeys o₁ m) = sortStrings (rangeKeys o₂ m) :=
   sortStrings_eq_of_perm (((permute_perm o₁ m).trans (permute_perm o₂ m).symm).map Prod.fst)
 
+open PolyVerif.GenbankBuild in
+theorem buildFeatureString_order (f : Feature) (o₁ o₂ : List Nat) :
+    buildFeatureString f o₁ = buildFeatureString f o₂ := by
+  unfold buildFeatureString
+  rw [sorted_rangeKeys f.attributes o₁ o₂]
+
+open PolyVerif.GenbankBuild in
+theorem buildFeatures_order (q₁ q₂ : Nat → List Nat) : ∀ (fs : List Feature) (i : Nat),
+    buildFeatures q₁ i fs = buildFeatures q₂ i fs
+  | [], _ => rfl
+  | f :: fs, i => by
+    simp only [buildFeatures]
+    rw [buildFeatureString_order f (q₁ i) (q₂ i), buildFeatures_order q₁ q₂ fs (i + 1)]
+
+open PolyVerif.GenbankBuild in
+/-- `build` does not depend on the map iteration orders -/
+theorem build_order_irrelevant (x : Sequence) (o₁ o₂ : MapOrders) : build x o₁ = build x o₂ := by
+  unfold build
+  simp only []
+  rw [sorted_rangeKeys x.metadata.other o₁.other o₂.other, buildFeatures_order o₁.quals o₂.quals]
+
 /-! ### wordwrap.WrapString
 
 `Wrapped out t`: `out` is `t` in which some runs of blanks have been replaced by ONE newline each,
